@@ -454,11 +454,14 @@ Scenario const scen_durable = {"durable", gen_durable, exec_durable};
 // ------------------------------------------------------------------------------------------------
 // rollback: C15, refinement against the prefix-text model
 
-static Plan gen_rollback(Rng& r, int tier, std::string const&)
+static Plan gen_rollback(Rng& r, int tier, std::string const& focus)
 {
     Plan p;
     p.scn = "rollback";
     GenOpts o;
+    if (focus == "C07") o.integ = VEGAS;
+    if (focus == "C08") o.integ = MULTI;
+    if (focus == "C19") o.integ = r.chance(0.5) ? VEGAS : MULTI;
     o.max_calls = tier ? 120 : 40;
     o.max_iters = 6;
     o.allow_zero_calls = false;
@@ -494,6 +497,12 @@ static Plan gen_rollback(Rng& r, int tier, std::string const&)
         else if (k < 6)
         {
             op.kind = OP_RELOAD;
+        }
+        else if (k == 6 && len >= 1 && p.P == 0)
+        {
+            // the last iteration again, by hand (public *_iteration and add()), with more calls
+            op.kind = OP_REDO;
+            op.a = r.below(8);
         }
         else
         {
@@ -579,6 +588,19 @@ static void exec_rollback(Plan const& p, Report& rep)
             ran = true;
             what = fmt("op %zu run(%llu%s)", i, (unsigned long long) n, alt ? ", other calls" : "");
         }
+        else if (op.kind == OP_REDO)
+        {
+            if (len == 0 || p.P != 0) continue;
+            u64 const calls = cur.back() + op.a;
+            if (!s.w->redo_last_by_hand(p, calls, ctl))
+            {
+                rep.fail("C15", "exception", key, fmt("op %zu: redoing the last iteration by hand threw", i));
+                return;
+            }
+            cur.back() = calls;
+            rep.probes["last-iteration-redone-by-hand"]++;
+            what = fmt("op %zu redo(+%llu)", i, (unsigned long long) op.a);
+        }
         else if (op.kind == OP_RELOAD)
         {
             if (len == 0 && !(empty_ok || ran)) continue;
@@ -649,6 +671,9 @@ static void exec_rollback(Plan const& p, Report& rep)
             std::unique_ptr<IWorld> probe = make_world(p.nt, p.eng);
             if (view_finite(live)) durable = durability_check(p, *probe, live, now, rep, "history");
         }
+
+        // the grids the iterations were drawn with hold equal shares of the importance before them
+        if (p.integ == VEGAS) oracle_c07_share(p, s.w->view(), rep, true);
 
         std::string const& want = model(cur);
         if (model_failed || !durable) return;
@@ -1316,6 +1341,22 @@ static void exec_modes(Plan const& p, Report& rep)
         if ((mode == 0 || mode == 2) && fs().n_events_total != 0)
         {
             rep.fail("C20", "non-writing-mode-writes", key, fmt("mode %d touched the file system", mode));
+            return;
+        }
+    }
+
+    if (p.integ == MULTI && p.P == 0 && p.variant == 0 && (mix2(p.fseed, 8080) % 3) == 0)
+    {
+        // the same integrand on a checkpoint class of the user's own (not derived from
+        // multi_channel_chkpt) with the built-in callback
+        std::unique_ptr<IWorld> w = make_world(p.nt, p.eng);
+        fs().reset();
+        std::string const why = w->user_chkpt_modes(p, p.calls, ctl_from_plan(p));
+        fs().reset();
+        rep.probes["user-defined-checkpoint-class"]++;
+        if (!why.empty())
+        {
+            rep.fail("C20", "user-checkpoint-class", key, why);
             return;
         }
     }
